@@ -100,6 +100,13 @@ CHECKS = {
             "stream after a processed GOAWAY.",
             "asyncio driver; the HTTP/2 peer is truthful about last-stream-id; deadlocks belong to C07/C12.",
             "3 C14"),
+    "C15": ("exploration",
+            "fuzzing: structure-aware Hypothesis grammars with injected defects, mutation of recorded valid conversations, enumerated backend-fault injection, and (thorough) an Atheris/libFuzzer coverage-guided campaign; oracle = exception class is documented and matches the cause, call terminates",
+            "Arbitrary peer bytes at every stage (HTTP/1.1 head/body/chunking, HTTP/2 frames of any type/flags/length/stream id with HPACK defects, SOCKS5 "
+            "and CONNECT replies) from grammars, mutations and coverage-guided fuzzing, every documented backend exception at every network op of 9 "
+            "connection kinds, and caller-invalid requests: only documented httpcore exceptions of the right class may reach the caller, and the call ends.",
+            "Replay peer semantics (vf/peers/replay.py); libFuzzer campaigns are reproducible only through their saved case files.",
+            "3 C15"),
     "C16": ("exploration",
             "exhaustive configuration matrix over the op trace of a simulated backend (timeout argument of every network op) + virtual-clock pool-timeout schedules",
             "Every combination of connect/read/write/pool in {absent, None, 0, value} x 14 connection kinds x 3 request shapes, two requests "
@@ -170,6 +177,8 @@ def main():
             "add_only": True,
         },
         "engines": [
+            {"name": "atheris-c15", "path": "fuzz/c15_fuzz.py", "serves_properties": ["C15"],
+             "kind_free_text": "Atheris (libFuzzer) coverage-guided fuzz target for C15 (thorough tier); findings are written as replayable case files and re-checked through the Hypothesis-layer oracle"},
             {"name": "simnet-hypothesis", "path": "vf/", "serves_properties": sorted(CHECKS),
              "kind_free_text": "Hypothesis-generated and enumerated scenarios executed against the real httpcore on a simulated "
                                "network (vf/simnet.py) with independent peer models (vf/peers) and explicit oracles (vf/props)"},
